@@ -19,6 +19,9 @@ CVC5_TIMEOUT_S = int(os.environ.get("VERIF_CVC5_TIMEOUT_S", "30"))
 MAX_PATHS = int(os.environ.get("VERIF_MAX_PATHS", "4000"))
 
 
+VACUITY_TIMEOUT_MS = 2000
+
+
 class FunctionResult:
     def __init__(self, key):
         self.key = key
@@ -36,6 +39,7 @@ class FunctionResult:
         self.file = None
         self.seconds = 0.0
         self.path_models = []  # (path label, decisions, outcome kind) for the differential check
+        self.vacuous_paths = []  # paths whose full path condition is contradictory
 
     def summary(self):
         st = {}
@@ -642,6 +646,21 @@ def verify_contract(E, con, thorough=False):
         bounded_refutation(E, con, fi, obs)
     if any(ob.status == "undecided" for ob in obs):
         empty_sets_refutation(obs)
+    # vacuity guard per path: the feasibility solver sees only the quantifier-free part of the path condition, so a contradiction that
+    # involves a quantified fact (a callee's postcondition against the caller's trace, say) is invisible while exploring and makes EVERYTHING
+    # on that path provable.  The full path condition at the end of every path must not be refutable.
+    last = {}
+    for ob in obs:
+        if ob.kind != "static":
+            last[ob.path] = ob
+    res.vacuous_paths = []
+    for path, ob in last.items():
+        s = z3.Solver()
+        s.set("timeout", VACUITY_TIMEOUT_MS)
+        s.add(*ob.pc)
+        if s.check() == z3.unsat:
+            core_hint = ""
+            res.vacuous_paths.append(path)
     obs.extend(static_obligations(E, con))
     res.seconds = time.time() - t0
     res.inlined = sorted(E.inlined)
@@ -714,13 +733,19 @@ def differential(E, con, fi, max_paths=64):
                     for o, items1 in exit_displays:
                         o.items = items1
                 conc = out["conc"]
+                out["bound"] = bound
                 if conc.inexact:
                     stats["inexact"] += 1
                 mism = _compare(E, ctx, I, m, conc, out, kind, value, tr_old, con)
-                if mism and conc.inexact:
+                if mism and out.get("entry_object_beyond_frontier"):
+                    # the model's entry state is not a state (an object beyond the allocation frontier collides with what the run allocates)
+                    stats["ill_formed_model_not_compared"] = stats.get("ill_formed_model_not_compared", 0) + 1
+                elif mism and conc.inexact:
                     # the model's real-valued inputs are not exactly representable as doubles: the concrete run starts from ROUNDED
                     # inputs, and a discontinuous operation (floor division) may then land on the other side - not comparable
                     stats["inexact_not_compared"] = stats.get("inexact_not_compared", 0) + 1
+                elif out.get("admits_undecided"):
+                    stats["admits_undecided_not_compared"] = stats.get("admits_undecided_not_compared", 0) + 1
                 elif mism:
                     stats["mismatches"].append({"path": ctx.path_label, "decisions": ctx.decisions, "inputs": out["inputs"], "what": mism})
                 else:
@@ -768,6 +793,37 @@ def _num_close(a, b, exact, _depth=0):
     return False
 
 
+def _admits(E, ctx, m, bound, result_term, real):
+    """is `result == <CPython's result>` consistent with the path condition for the model's inputs (parameters, their display leaves and
+    the entry heap pinned to the model)?  True / False / None (not expressible or solver undecided)"""
+    from .concrete import HeapBuilder
+
+    if not (real is None or isinstance(real, (bool, int, float, str))):
+        return None
+    s = z3.Solver()
+    s.set("timeout", 5000)
+    s.add(*ctx.pc)
+
+    def pin(x):
+        if isinstance(x, SV):
+            s.add(x.t == m.eval(x.t, model_completion=True))
+        elif isinstance(x, VDict):
+            for v in x.items.values():
+                pin(v)
+        elif isinstance(x, (VList, VTuple, VSet)):
+            for v in x.items:
+                pin(v)
+
+    for v in (bound or {}).values():
+        pin(v)
+    for k, arr in ctx.heap0.items():
+        if arr is not None and z3.is_const(arr):
+            s.add(arr == m.eval(arr, model_completion=True))
+    s.add(result_term == HeapBuilder(ctx).term(real))
+    r = s.check()
+    return True if r == z3.sat else False if r == z3.unsat else None
+
+
 def _compare(E, ctx, I, m, conc, out, kind, value, tr_old, con):
     from . import replay as R
 
@@ -783,7 +839,14 @@ def _compare(E, ctx, I, m, conc, out, kind, value, tr_old, con):
         except R.NotConcretisable:
             return None
         if not _num_close(sym, out["result"], exact):
-            return "result: symbolic %r, CPython %r" % (sym, out["result"])
+            # the model completes UNINTERPRETED parts of the encoding (e.g. the text a float renders to) arbitrarily: what has to hold is that
+            # the encoding ADMITS CPython's result for these very inputs
+            adm = _admits(E, ctx, m, out.get("bound"), ctx.to_val(value).t, out["result"])
+            if adm is None:
+                out["admits_undecided"] = True      # neither equal under the model's completion nor decided by the solver: not compared
+                return None
+            if adm is False:
+                return "result: symbolic %r, CPython %r (the encoding does not admit CPython's result for these inputs)" % (sym, out["result"])
     else:
         cidt = z3.simplify(m.eval(I.exc_class_term(value), model_completion=True))
         if z3.is_int_value(cidt) and cidt.as_long() in E.classes.by_id:
